@@ -136,13 +136,11 @@ def op_binop(op, a, b, heap):
             x, y = coerce(a, INT).term, coerce(b, INT).term
             # z3 div/mod are Euclidean: for y > 0 they coincide with Python's floor div / mod
             pos = z3.is_int_value(y) and y.as_long() > 0
+            # z3's div / mod agree with Python's // and % for a positive divisor; other divisors are outside the model
+            guard = None if pos else (y <= 0, Unsupported)
             if isinstance(op, ast.FloorDiv):
-                if not pos:
-                    raise Unsupported('floor division by a divisor not known to be positive')
-                return mk_int(x / y), None
-            if not pos:
-                raise Unsupported('modulo by a divisor not known to be positive')
-            return mk_int(x % y), None
+                return mk_int(x / y), guard
+            return mk_int(x % y), guard
         if isinstance(op, (ast.BitAnd, ast.BitOr, ast.LShift, ast.RShift)):
             x, y = coerce(a, INT).term, coerce(b, INT).term
             W = 72
